@@ -26,7 +26,7 @@ ASSUMPTIONS = [
     "only_current and remove are combined only when the current occurrence is the last one (caller contract stated in inline.py)",
     "bodies are straight-line with a single final return (what rope documents as inlineable); everything is int-valued and total",
 ]
-BUDGET = {"quick": (9600, 240), "thorough": (200000, 2700)}
+BUDGET = {"quick": (30000, 240), "thorough": (300000, 2700)}
 
 PN = ["a", "b", "c"]
 
